@@ -8,6 +8,16 @@ ALL = ["C%02d" % i for i in range(1, 21)]
 
 # property -> (technique, level text, level note, design ref)
 CHECKS = {
+    "C01": (
+        "bounded exhaustive exploration: full real Fourier basis per configuration (linearity lift) + BFS over step histories, lock-step with closed-form symbols",
+        "For every enumerated (class variant, D, N, L, dt) the real stepper is applied to every real Fourier basis function below Nyquist and to a "
+        "superposition, and step_fourier to the all-ones spectrum; results are compared with the exact solution built from independently written "
+        "symbols. Because the stepper is linear, the basis decides all band-limited states of that configuration. Step histories {dt,2dt,3dt,-dt} "
+        "are explored breadth-first to depth 3 with diamond merging. Exhaustive inside the stated bounds on N and the finite L/dt/coefficient lattices.",
+        "Trusted: numpy reference symbols in mc/ref.py, linearity of the implementation (probed by the superposition state). Bounds in evidence.bounds; "
+        "amplifying configurations (Re(lambda*dt) > 3 on some stored mode) are skipped as ill-conditioned and listed.",
+        "DESIGN.md §4 C01",
+    ),
     "C14": (
         "bounded exhaustive exploration of the option product, lock-step with a plain-loop reference model",
         "Every (n, include_init, takes_aux, constant_aux, pytree shape, aux shape) combination up to the bound, every window (T, sub_len), "
